@@ -16,6 +16,9 @@ where
         .await
         .and_then(|n| u8::try_from(n).map_err(|e| io::Error::new(io::ErrorKind::InvalidData, e)))?;
 
+    crate::io::reader::index::validate_bin_geometry(min_shift, depth)
+        .map_err(|e| io::Error::new(io::ErrorKind::InvalidData, e))?;
+
     let header = read_aux(reader).await?;
 
     Ok((min_shift, depth, header))
